@@ -294,11 +294,19 @@ impl Texts {
 }
 
 /// One run of the real codegen over `example`, every crate renumbered with its own bijection
+thread_local! {
+    /// fault injection: the loader fails for this crate
+    static FAIL_CRATE: RefCell<Option<String>> = const { RefCell::new(None) };
+}
+
 fn run_codegen(texts: &Texts, example: &str, perms: &HashMap<String, Perm>) -> Result<(Value, Vec<String>, HashMap<String, Crate>), String> {
     LOAD_ORDER.with(|l| l.borrow_mut().clear());
     let loaded: RefCell<HashMap<String, Crate>> = RefCell::new(HashMap::new());
     let registry = crux_cli::codegen::verif_run(example, |name| {
         LOAD_ORDER.with(|l| l.borrow_mut().push(name.to_string()));
+        if FAIL_CRATE.with(|f| f.borrow().as_deref() == Some(name)) {
+            anyhow::bail!("injected fault: the description of crate `{name}` is unavailable");
+        }
         let Some(v) = texts.raw.get(name) else {
             anyhow::bail!("crate `{name}` is not among the bundled descriptions");
         };
@@ -417,7 +425,8 @@ fn main() {
     // transformations per description (all workers together); worker w takes t = w, w + W, ...
     let per_example = args.budget.unwrap_or(if args.thorough() { 480 } else { 15 });
     let seed = args.worker_seed();
-    for (ei, example) in EXAMPLES.iter().enumerate() {
+    // roots: the seven bundled apps, and the capability crates on their own (no app in them)
+    for (ei, example) in EXAMPLES.iter().chain(LIBS.iter()).enumerate() {
         wd.begin(|| json!({"lane": "clilab", "example": example, "phase": "baseline"}).to_string());
         let base = vcommon::trap(|| run_codegen(&texts, example, &HashMap::new()));
         wd.end();
@@ -447,6 +456,11 @@ fn main() {
         type_names(&base_reg, &mut refs);
         for t in &refs {
             r.count("type_references_checked", 1);
+            // a capability crate on its own has no app, hence no `Effect` for the bridge's generic
+            // `Request<Effect>` to refer to: not an input the property speaks about
+            if LIBS.contains(example) && t == "Effect" {
+                continue;
+            }
             if !entries.contains_key(t) {
                 r.violation(
                     &format!("registry/not-closed/{example}"),
@@ -584,6 +598,41 @@ fn main() {
                 }
                 Ok(Err(e)) => r.violation(&format!("codegen-failed-after-transformation/{example}"), &e, json!({"lane": "clilab", "example": example, "renumbered": renumbered})),
                 Err(p) => r.violation(&format!("panic/{}", vcommon::panic_site(&p)), &format!("codegen panicked: {p}"), json!({"lane": "clilab", "example": example})),
+            }
+        }
+        // (e) a dependent crate whose description cannot be loaded: the run fails, or whatever it
+        // hands out is still closed (sharded like the transformations)
+        for (di, dep) in base_order.iter().enumerate().skip(1) {
+            if (di as u64) % args.workers != args.worker {
+                continue;
+            }
+            FAIL_CRATE.with(|f| *f.borrow_mut() = Some(dep.clone()));
+            let res = vcommon::trap(|| run_codegen(&texts, example, &HashMap::new()));
+            FAIL_CRATE.with(|f| *f.borrow_mut() = None);
+            let mut r = report.lock().unwrap();
+            r.eval();
+            r.count("load_failures_injected", 1);
+            match res {
+                Ok(Err(_)) => {
+                    r.count("load_failures_reported_as_errors", 1);
+                    r.nontrivial(hash_mix(fnv64(example.as_bytes()), fnv64(dep.as_bytes())));
+                }
+                Ok(Ok((reg, _, _))) => {
+                    let defined = reg.as_object().cloned().unwrap_or_default();
+                    let mut refs = BTreeSet::new();
+                    type_names(&reg, &mut refs);
+                    let missing: Vec<&String> = refs.iter().filter(|t| !defined.contains_key(*t)).collect();
+                    if missing.is_empty() {
+                        r.nontrivial(hash_mix(fnv64(example.as_bytes()), fnv64(dep.as_bytes())));
+                    } else {
+                        r.violation(
+                            &format!("registry/not-closed-after-load-failure/{example}"),
+                            &format!("{example}: the description of `{dep}` could not be loaded, yet a registry was handed out in which {missing:?} are referenced but not defined"),
+                            json!({"lane": "clilab", "example": example, "unavailable_crate": dep, "missing": missing}),
+                        );
+                    }
+                }
+                Err(p) => r.violation(&format!("panic/{}", vcommon::panic_site(&p)), &format!("codegen panicked when `{dep}` could not be loaded: {p}"), json!({"lane": "clilab", "example": example, "unavailable_crate": dep})),
             }
         }
         let mut r = report.lock().unwrap();
